@@ -51,6 +51,9 @@ def carrier_yaml(address_size=16, endian='little', origin=None, zones=None, data
             'n2': {'bytecode': {'value': 2, 'size': 4}},
             'mov': {'bytecode': {'value': 0xC0, 'size': 8},
                     'operands': {'count': 1, 'operand_sets': {'list': ['reg']}}},
+            # one operand, of which one alternative is excluded (a one-element disallowed combination)
+            'mvx': {'bytecode': {'value': 0xC8, 'size': 8},
+                    'operands': {'count': 1, 'operand_sets': {'list': ['reg'], 'disallowed_pairs': [['rb']]}}},
         },
     }
     cfg['macros'] = {'two4': [{'instructions': ['n1', 'n2']}]}
